@@ -88,6 +88,23 @@ def check(ctx):
                    f"{pm.qualname} accepts {p!r} but does not pass it to to_string(): print_({p}=...) prints with the default",
                    clause="all max_rows/max_width/truncate_width settings")
     ctx.count("options of the print_ methods", n_pr, 4)
+    # the renderers themselves read every option they accept (a default may replace a missing value, not a given one)
+    from ..signatures import name_uses as _uses
+    n_opt = 0
+    for cq in (DF, VEC, LOD):
+        for mname in ("to_string", "to_strings"):
+            tm = repo.cls(cq).methods.get(mname)
+            if tm is None:
+                continue
+            for p in tm.kwonly + tm.params[1:]:
+                n_opt += 1
+                from ..dataflow import defs_reaching as _dr
+                us = [u for u in _uses(tm, p) if isinstance(u.ctx, ast.Load) and any(d.kind == "param" for d in _dr(tm, p, u))]
+                ctx.ob("FWD-override", tm, f"{mname} option {p} is read", us[0] if us else tm.node, bool(us),
+                       f"{p} is read at line(s) {sorted({u.lineno for u in us})}" if us else
+                       f"{tm.qualname} accepts {p!r} but never reads it (it is overwritten by the default): {mname}({p}=...) renders with "
+                       f"the default for every value", clause="all max_rows/max_width/truncate_width settings")
+    ctx.count("options of the renderers", n_opt, 6)
     for ov in [m for c in repo.classes.values() for m in c.methods.values()
                if m.name in ENTRY_NAMES and m.cls is not None and repo.subclasses(m.cls) == []
                and any(isinstance(b, type(m.cls)) and m.name in b.methods for b in repo.mro(m.cls)[1:] if not isinstance(b, str))]:
